@@ -276,6 +276,22 @@ def rule_defn(which):
             o.check(vertex_subset_tested(crate, p), prog.pretty[p], "is-subdigraph-vertex-subset",
                     "is_subdigraph never tests a vertex of self for membership in the vertex set of d (V(self) must be a subset of V(d))",
                     prog.fns[p]["span"])
+        # is_spanning_subdigraph: V(self) = V(d) must be decided length-sensitively
+        for p in impl_fns(crate, "graaf::op::is_spanning_subdigraph::IsSpanningSubdigraph", "is_spanning_subdigraph"):
+            an = crate.an(p)
+
+            def is_vertices_of(t, n):
+                while t[0] == "call" and t[3] and t[1] in (IT + "by_ref", "core::iter::traits::collect::IntoIterator::into_iter"):
+                    t = t[3][0]
+                return t[0] == "call" and t[1] == VERTICES and len(t[3]) == 1 and t[3][0][0] == "at" and t[3][0][1] == "A%d" % n
+            zips = [ev for ev in an.events if ev["k"] == "call" and ev["key"] == IT + "zip" and len(ev["args"]) == 2
+                    and ((is_vertices_of(ev["args"][0], 1) and is_vertices_of(ev["args"][1], 2))
+                         or (is_vertices_of(ev["args"][0], 2) and is_vertices_of(ev["args"][1], 1)))]
+            if zips:
+                o.instances += 1
+                o.check(False, prog.pretty[p], "spanning-vertex-sets-equal", "the two vertex sequences are compared through zip(), which stops "
+                        "at the shorter one: a digraph whose vertex list is a proper prefix of the other's is accepted as spanning "
+                        "(Iterator::eq compares the lengths as well)", zips[0]["span"])
         # is_superdigraph(d) = d.is_subdigraph(self)
         for p in impl_fns(crate, "graaf::op::is_superdigraph::IsSuperdigraph", "is_superdigraph"):
             summ = prog.summaries.get(p)
